@@ -17,8 +17,8 @@ TRANSLATE = True
 # Gen/AlgoLMeasure.lean is regenerated on every run from analysis/lmeasure.py (n_stems, n_bifs, n_branch, n_tips, branch_order, terminal_degree,
 # partition_asymmetry, fragmentation), tree.py (Tree.soma, Tree.get_tips, Tree.Node.subtree), swc.py (number_of_edges); it calls the node handles
 # (Gen/AlgoNode), get_furcations / get_branches (Gen/AlgoBranches) and get_subtree_impl (Gen/AlgoSubtree), all over the generated traversal
-TRANSLATE_ALGO = ["AlgoTraverse", "AlgoNode", "AlgoBranches", "AlgoSubtree", "AlgoLMeasure", "AlgoSholl", "AlgoFeatFront", "AlgoBranchTree", "AlgoNodeFeat"]
-DRIVER_FILES = ["SwcVerif/Model/AlgoRunLMeasure.lean", "SwcVerif/Model/PyMore.lean", "SwcVerif/Model/AlgoRunSholl.lean", "SwcVerif/Model/PySholl.lean",
+TRANSLATE_ALGO = ["AlgoTraverse", "AlgoNode", "AlgoBranches", "AlgoSubtree", "AlgoLMeasure", "AlgoSholl", "AlgoFeatFront", "AlgoBranchTree", "AlgoNodeFeat", "AlgoNodeBranch", "AlgoLmGeo"]
+DRIVER_FILES = ["SwcVerif/Model/AlgoRunLMeasure.lean", "SwcVerif/Model/AlgoRunLmGeo.lean", "SwcVerif/Model/PyLmGeo.lean", "SwcVerif/Model/PyMore.lean", "SwcVerif/Model/AlgoRunSholl.lean", "SwcVerif/Model/PySholl.lean",
                 "SwcVerif/Model/PyResample.lean", "SwcVerif/Model/AlgoRunNodeFeat.lean", "SwcVerif/Model/PyNodeFeat.lean"]
 LEAN_MODS = ["SwcVerif.Props.C10", "SwcVerif.Proofs.Represent", "SwcVerif.Props.C10Gen", "SwcVerif.Props.C10Sholl", "SwcVerif.Props.C10NodeFeat"]
 THEOREMS = [
@@ -1854,7 +1854,187 @@ class NodeFeat(Suite):
         return case["tree"]["n"] >= 3
 
 
-SUITES = [NodeFeat(), Features(), Angles(), Closed(), ShollNear(), Requests(), PopulationRows(), Sampled(), LmTopo()]
+# ----------------------------------------------------------------------------------------------------------------------------------
+# T21 `lmgeo`: the GENERATED geometric L-Measure functions (Gen/AlgoLmGeo.lean, driver op `glmgeo`)
+
+class _SumSqNorm:
+    """`numpy.linalg.norm` replaced by the SUM OF SQUARES (float64) while the real functions run: on integer-lattice trees every value the
+    functions compute is then an exact integer / a quotient of exact integers, and equals what the generated definitions compute at `Rat` with
+    `norm` := sum of squares.  (numpy is patched, not the library; what is pinned is WHICH nodes / vectors / radii each function reads.)"""
+
+    def __enter__(self):
+        self.old = np.linalg.norm
+        np.linalg.norm = lambda x, ord=None, axis=None, keepdims=False: (np.asarray(x, dtype=np.float64) ** 2).sum(axis=axis)
+        return self
+
+    def __exit__(self, *a):
+        np.linalg.norm = self.old
+
+
+LMGEO_NODE = ["path_distance", "euc_distance", "diameter"]
+LMGEO_BIF = ["rall_power_d", "pk_2", "bif_vector_local", "bif_ampl_local"]
+LMGEO_BRANCH = ["branch_pathlength", "contraction", "taper_1", "taper_2"]
+
+
+def _lg_val(f):
+    """a real result as JSON: "E" = raised / not finite (a numpy division by zero), else the float (tuples / arrays element-wise)"""
+    try:
+        v = f()
+    except (AssertionError, ValueError, ZeroDivisionError, IndexError) as e:
+        return "E"
+    if isinstance(v, tuple):
+        return [[float(x) for x in np.asarray(c).reshape(-1)] for c in v]
+    v = float(v)
+    return v if math.isfinite(v) else "E"
+
+
+def _lg_close(x, w, exact):
+    if w == "E" or x == "E":
+        return x == w
+    q = Fraction(x)
+    if exact:
+        return q.numerator / q.denominator == w          # int / int is the correctly rounded quotient
+    return abs(q.numerator / q.denominator - w) <= 1e-6 * max(1.0, abs(w))
+
+
+class LmGeo(Suite):
+    """the geometric L-Measure functions on integer-lattice trees of every shape and numbering, at every node / bifurcation candidate / branch;
+    trees with coincident points (zero-length branches, zero bifurcation vectors) and trees without a soma root included"""
+    name = "c10.lmgeo"
+
+    def cases(self, rng, tier, widen):
+        out = []
+        big = tier == "thorough" or widen
+        k = 0
+        def coords(n, lo, hi):
+            return [[rng.randint(lo, hi) for _ in range(3)] for _ in range(n)]
+        for n in range(1, 5):
+            for pids in gen.all_root0_trees(n):
+                k += 1
+                out.append({"class": f"all-n{n}", "n": n, "pids": pids, "types": [1] + [3] * (n - 1), "xyz": coords(n, -1 if k % 2 else -3, 1 if k % 2 else 3),
+                            "r": [rng.randint(1, 3) for _ in range(n)]})
+        for n in [s for s in gen.sizes(tier, widen) if s <= (70 if big else 24)]:
+            for _ in range(3 if not big else 6):
+                shape = gen.pick_shape(rng, k); k += 1
+                pids = gen.parents_sorted(rng, n, shape)
+                if k % 3:
+                    pids = gen.renumber_root0(rng, pids)
+                m = len(pids)
+                ty = [1 if k % 5 else rng.choice([0, 2, 3])] + [rng.choice([1, 2, 3, 4]) for _ in range(m - 1)]
+                span = 1 if k % 4 == 0 else 5          # span 1: many coincident points
+                out.append({"class": shape + ("/root0" if k % 3 else "/sorted") + ("" if ty[0] == 1 else "/no-soma") + ("/dense" if span == 1 else ""),
+                            "n": m, "pids": pids, "types": ty, "xyz": coords(m, -span, span), "r": [rng.randint(1, 4) for _ in range(m)]})
+        return out
+
+    def run(self, case):
+        from swcgeom.analysis.lmeasure import LMeasure
+
+        n = case["n"]
+        t = gen.make_tree(dict(case, xyz=[[float(a) for a in p] for p in case["xyz"]], r=[float(a) for a in case["r"]]))
+        lm = LMeasure()
+        res = {}
+        with warnings.catch_warnings(), np.errstate(all="ignore"), _SumSqNorm():
+            warnings.simplefilter("ignore")
+            res["path_distance"] = [_lg_val(lambda: lm.path_distance(t.node(i))) for i in range(n)]
+            res["euc_distance"] = [_lg_val(lambda: lm.euc_distance(t.node(i))) for i in range(n)]
+            res["diameter"] = [_lg_val(lambda: lm.diameter(t.node(i))) for i in range(n)]
+            res["rall_power_d"] = [_lg_val(lambda: tuple(np.float64(x) for x in lm._rall_power_d(t.node(i)))) for i in range(n)]
+            res["pk_2"] = [_lg_val(lambda: lm.pk_2(t.node(i))) for i in range(n)]
+            res["bif_vector_local"] = [_lg_val(lambda: lm._bif_vector_local(t.node(i))) for i in range(n)]
+            res["bif_ampl_local"] = [_lg_val(lambda: lm.bif_ampl_local(t.node(i))) for i in range(n)]
+            brs = t.get_branches()
+            res["branches"] = [[int(x) for x in b.origin_id()] for b in brs]
+            res["branch_pathlength"] = [_lg_val(lambda: lm.branch_pathlength(b)) for b in brs]
+            res["contraction"] = [_lg_val(lambda: lm.contraction(b)) for b in brs]
+            res["taper_1"] = [_lg_val(lambda: lm.taper_1(b)) for b in brs]
+            res["taper_2"] = [_lg_val(lambda: lm.taper_2(b)) for b in brs]
+        return res
+
+    def lines(self, case, res):
+        if "exc" in res:
+            return []
+        n = case["n"]
+        xyz = case["xyz"]
+        g = (f"glmgeo pids={gen.ints(case['pids'])} types={gen.ints(case['types'])} xs={gen.ints([p[0] for p in xyz])} ys={gen.ints([p[1] for p in xyz])} "
+             f"zs={gen.ints([p[2] for p in xyz])} rs={gen.ints(case['r'])}")
+        def scal(want, exact):
+            def f(got):
+                vals = [] if got == "_" else got.split()
+                return len(vals) == len(want) and all(_lg_close(x, w, exact) for x, w in zip(vals, want))
+            return Expect(f, str(want))
+        def vecs(want):
+            def f(got):
+                vals = got.split()
+                if len(vals) != len(want):
+                    return False
+                for x, w in zip(vals, want):
+                    if w == "E" or x == "E":
+                        if x != w:
+                            return False
+                    elif [[float(Fraction(c)) for c in part.split(",")] for part in x.split(";")] != w:
+                        return False
+                return True
+            return Expect(f, str(want))
+        def ampl(want):
+            def f(got):
+                vals = got.split()
+                if len(vals) != len(want):
+                    return False
+                for x, w in zip(vals, want):
+                    if w == "E" or x == "E":
+                        if x != w:
+                            return False
+                    else:
+                        c = float(Fraction(x))
+                        if abs(math.degrees(math.acos(max(-1.0, min(1.0, c)))) - w) > 1e-3:
+                            return False
+                return True
+            return Expect(f, str(want))
+        nodes = gen.ints(list(range(n)))
+        out = [(f"{g} what={w}", scal(res[w], True)) for w in LMGEO_NODE]
+        out.append((f"{g} what=rall_power_d nodes={nodes}", Expect(lambda got, want=res["rall_power_d"]: [
+            "E" if x == "E" else [[float(Fraction(c))] for c in x.split(",")] for x in got.split()] == want, str(res["rall_power_d"]))))
+        out.append((f"{g} what=pk_2 nodes={nodes}", scal(res["pk_2"], False)))
+        out.append((f"{g} what=bif_vector_local nodes={nodes}", vecs(res["bif_vector_local"])))
+        out.append((f"{g} what=bif_ampl_local nodes={nodes}", ampl(res["bif_ampl_local"])))
+        out += [(f"{g} what={w}", scal(res[w], w in ("branch_pathlength", "contraction"))) for w in LMGEO_BRANCH]      # taper_1 / taper_2 are float32 quotients
+        return out
+
+    def oracle(self, case, res):
+        """the definitions, computed directly from the case data (squared lengths, as the patched norm gives them)"""
+        pids, n, xyz, r = case["pids"], case["n"], case["xyz"], case["r"]
+        if "exc" in res:
+            return [("lmgeo-raises", f"{res['exc']}: {res.get('msg')} on pids={pids}")]
+        d2 = lambda a, b: sum((xyz[a][k] - xyz[b][k]) ** 2 for k in range(3))
+        out = []
+        def up(i):
+            s = 0
+            while pids[i] != -1:
+                s += d2(i, pids[i]); i = pids[i]
+            return s
+        want = [float(up(i)) for i in range(n)]
+        if res["path_distance"] != want:
+            out.append(("lmgeo-path-distance", f"path_distance {res['path_distance']}, sum of the (squared) edge lengths to the root: {want} (pids={pids})"))
+        want = [float(d2(i, 0)) for i in range(n)] if case["types"][0] == 1 else ["E"] * n
+        if res["euc_distance"] != want:
+            out.append(("lmgeo-euc-distance", f"euc_distance {res['euc_distance']}, (squared) distance to the soma: {want} (pids={pids})"))
+        if res["diameter"] != [2.0 * a for a in r]:
+            out.append(("lmgeo-diameter", f"diameter {res['diameter']} of radii {r}"))
+        for b, L, c, t1, t2 in zip(res["branches"], res["branch_pathlength"], res["contraction"], res["taper_1"], res["taper_2"]):
+            wl = float(sum(d2(u, v) for u, v in zip(b, b[1:])))
+            wc = "E" if wl == 0 else d2(b[0], b[-1]) / wl
+            w1 = "E" if wl == 0 else (2 * r[b[0]] - 2 * r[b[-1]]) / wl
+            w2 = (2 * r[b[0]] - 2 * r[b[-1]]) / (2 * r[b[0]])
+            if L != wl or c != wc or (t1 != w1 and not (t1 != "E" and w1 != "E" and abs(t1 - w1) < 1e-6)) or abs(t2 - w2) > 1e-6:
+                out.append(("lmgeo-branch", f"branch {b}: pathlength/contraction/taper_1/taper_2 = {L}, {c}, {t1}, {t2}; the definitions give {wl}, {wc}, {w1}, {w2}"))
+                break
+        return out[:3]
+
+    def nontrivial(self, case, res):
+        return case["n"] >= 3
+
+
+SUITES = [NodeFeat(), Features(), Angles(), Closed(), ShollNear(), Requests(), PopulationRows(), Sampled(), LmTopo(), LmGeo()]
 TECHNIQUE = ("Lean 4 theorems about the feature models (tree length = Σ edge lengths = Σ branch lengths via C08's edge partition; path length = path distance of its tip; "
              "counts, branch order, terminal degree, Sholl straddle count read off their definitions; partition asymmetry REGENERATED from lmeasure.py; zero-padded "
              "population rows) + differential correspondence (exact on integer-edge lattice trees) + an oracle computing every quantity from its definition in float64")
